@@ -14,7 +14,7 @@ FUNCTIONS = ["modular_vmap", "ModularVmap.eval / eval_jaxpr_modular_vmap / stage
              "VmapBatchHandler (sample batching rule)", "LogDensityVmapHandler (log-density batching rule)", "static_dim_length",
              "Vmap.simulate/assess/generate/update/regenerate/filter", "repeat (gf.vmap(in_axes=None, axis_size=n))"]
 BOUNDS = {
-    "modular_vmap": "11 functions with sampling and density sites (scalar, vector-valued, event-shaped (categorical, multivariate normal), "
+    "modular_vmap": "13 functions with sampling and density sites (scalar, vector-valued, event-shaped (categorical, multivariate normal), distribution parameters passed by keyword, "
                     "sample_shape sites, scan and cond inside, nested modular_vmap, pytree arguments) x axis specifications "
                     "{0, (0,None), (None,0), 1, -1, None + axis_size, pytree prefix, axis_size given and inferred}; batch sizes 2 and 3 "
                     "(3 chosen equal to an inner dimension where pairing errors would otherwise hide); all argument values and outcomes",
